@@ -463,6 +463,7 @@ func check(prop, tier string) int {
 		seen[sig] = true
 		nNew++
 		if nNew > 3 {
+			fmt.Printf("violation (not minimised, seed %d variant %q): %s: %s\n", v.Spec.Seed, v.Spec.Variant, sig, v.Violations[0].Detail)
 			continue
 		}
 		path, ok := minimiseAndStore(bin, scratch, prop, v, tier)
